@@ -573,7 +573,14 @@ def run_impl(lines):
         elif op == "lfo":
             lid = int(w[1])
             f, mn, mx = pf(w[2]), pf(w[3]), pf(w[4])
-            l = tl.lfo({"shape": "sine", "frequency": float(f), "min": float(mn), "max": float(mx)})
+            if (lid + int(float(f) * 16)) % 2 == 1:
+                # an instance of a USER SUBCLASS of LFO, scheduled the way Timeline.lfo does it: it is an LFO like any other
+                class UserLFO(iso.LFO):
+                    pass
+                l = UserLFO(tl, shape="sine", frequency=float(f), min=float(mn), max=float(mx))
+                tl.lfos.append(l)
+            else:
+                l = tl.lfo({"shape": "sine", "frequency": float(f), "min": float(mn), "max": float(mx)})
             lfos[lid] = l
             lspec[lid] = {"f": f, "min": mn, "max": mx, "sinks": [], "vals": [], "scale": max(1, abs(mn), abs(mx))}
             p = iso.Pattern.pattern(l)
